@@ -551,6 +551,7 @@ func main() {
 		Run: func(t *vlib.T) {
 			runRD(t)
 			runRT(t)
+			runHist(t)
 		},
 	})
 }
